@@ -608,6 +608,7 @@ struct Params {
   // shape hit by the known finding "LazyContract head started through Here/Next" (known_findings.txt): not executed by
   // the search (counted as excluded) unless the case explicitly asks for it (hdr[8] == 1: the known-finding replay file)
   bool known_shape = false, force = false;
+  int run_variant = 0;  // eager Run sources: 0 Run(e, f), 1 AsyncContract<V>(e, f) with f(Promise) setting the value
   std::vector<Step> prog;
 };
 
@@ -625,6 +626,7 @@ Params Decode(const Case& c) {
   p.abandon = lazy && c.H(6) % 4 == 0;
   p.immediate = c.H(7) % 2 == 1 || (lazy && !p.abandon && p.start == kGet);
   if (!lazy) {
+    p.run_variant = c.H(4) % 2;  // (the start mode field is free for eager sources)
     p.start = kToFuture;
   }
   p.force = c.H(8) == 1;
@@ -811,7 +813,11 @@ void RunReal(const Params& p, Outcome& o, int source_override = -1) {
         Extend(yaclib::MakeFuture<int, TErr>(std::make_exception_ptr(Boom{7})), c);
         break;
       case kRun:
-        Extend(yaclib::Run<TErr>(c.ex[se], [] { return 1; }), c);
+        if (p.run_variant == 1 && source_override < 0) {
+          Extend(yaclib::AsyncContract<int, TErr>(c.ex[se], [](yaclib::Promise<int, TErr> pr) { std::move(pr).Set(1); }), c);
+        } else {
+          Extend(yaclib::Run<TErr>(c.ex[se], [] { return 1; }), c);
+        }
         break;
       case kLateValue:
       case kLateError:
@@ -823,7 +829,13 @@ void RunReal(const Params& p, Outcome& o, int source_override = -1) {
         break;
       }
       case kRunStopped:
-        Extend(yaclib::Run<TErr>(yaclib::MakeInline(yaclib::StopTag{}), [] { return 1; }), c);
+        if (p.run_variant == 1 && source_override < 0) {
+          Extend(yaclib::AsyncContract<int, TErr>(yaclib::MakeInline(yaclib::StopTag{}),
+                                                  [](yaclib::Promise<int, TErr> pr) { std::move(pr).Set(1); }),
+                 c);
+        } else {
+          Extend(yaclib::Run<TErr>(yaclib::MakeInline(yaclib::StopTag{}), [] { return 1; }), c);
+        }
         break;
       case kMakeTask:
         if (p.se == 1) {  // same observable behaviour as MakeTask(1): one allocation (the frame), value 1, lazy
@@ -1014,7 +1026,10 @@ class PipeFamily final : public vf::Family {
   std::string Describe(const Case& c) const final {
     const Params p = Decode(c);
     char b[128];
-    std::string s = std::string("source=") + (p.source == kMakeTask && p.se == 1 ? "coroutine Task head" : kSourceName[p.source]) +
+    std::string s = std::string("source=") +
+                    (p.source == kMakeTask && p.se == 1                                  ? "coroutine Task head"
+                     : (p.source == kRun || p.source == kRunStopped) && p.run_variant == 1 ? (p.source == kRun ? "AsyncContract(e)" : "AsyncContract(stopped Inline)")
+                                                                                           : kSourceName[p.source]) +
                     " se=" + std::to_string(p.se + 1);
     std::snprintf(b, sizeof b, " refuse_from=[%d,%d] exec=%s", p.rej[0] > 99 ? -1 : p.rej[0], p.rej[1] > 99 ? -1 : p.rej[1],
                   p.immediate ? "immediate" : "queued");
@@ -1057,7 +1072,9 @@ class PipeFamily final : public vf::Family {
     interesting |= o.mlog.size() < p.prog.size();
     v.nontrivial = p.prog.size() >= 2 && interesting;
     v.hash = c.ProgHash();
-    v.tags.push_back(p.source == kMakeTask && p.se == 1 ? "coroutine Task head" : kSourceName[p.source]);
+    v.tags.push_back(p.source == kMakeTask && p.se == 1                                    ? "coroutine Task head"
+                     : (p.source == kRun || p.source == kRunStopped) && p.run_variant == 1 ? "AsyncContract (eager, Promise-taking functor)"
+                                                                                           : kSourceName[p.source]);
     if (o.rejected) {
       v.tags.push_back("refused-submit");
     }
